@@ -107,7 +107,8 @@ def subchecks(tier, seed):
                  ("plans_B", "B", [(2, 2), (2, 3), (1, 3)], 4, (0, 1, 2)), ("plans_I", "I", [(1, 2), (2, 2)], 4, (0, 1, 2))]
     else:
         specs = [("plans_N", "N", small + [(3, 3)], 4, (0, 1, 2)), ("plans_wide_N", "N", [(1, 4), (4, 1), (2, 4), (4, 2)], 4, (0, 1, 2)),
-                 ("plans_U6_N", "N", [(2, 2), (2, 3), (3, 2)], 6, (0, 1, 2)), ("plans_4x4_N", "N", [(3, 4), (4, 4)], 4, (0, 1)),
+                 ("plans_U6_N", "N", [(2, 2), (2, 3), (3, 2)], 6, (0, 1, 2)), ("plans_3x4_N", "N", [(3, 4), (4, 3)], 4, (0, 1)),
+                 ("plans_4x4_N", "N", [(4, 4)], 2, (0, 1)),
                  ("plans_B", "B", small, 4, (0, 1, 2)), ("plans_I", "I", [(1, 2), (2, 1), (2, 2), (2, 3)], 4, (0, 1, 2))]
     subs = []
     for name, mode, shapes, U, costs in specs:
